@@ -16,7 +16,8 @@ import (
 
 func init() {
 	engine.Register("U-INDEX", ruleUIndex)
-	engine.Register("U-BYTES", ruleUBytes)
+	engine.Register("U-BYTES", func(c *engine.Context) *report.Rule { return ruleUBytes(c, "U-BYTES") })
+	engine.Register("U-RUNELEN", func(c *engine.Context) *report.Rule { return ruleUBytes(c, "U-RUNELEN") })
 	engine.Register("N-KEYFLOW", ruleNKeyFlow)
 	engine.Register("N-NUMCONV", ruleNNumConv)
 }
@@ -196,8 +197,12 @@ func ruleUIndex(c *engine.Context) *report.Rule {
 }
 
 // ruleUBytes: byte/rune unit pitfalls in the hand-written text transducers.
-func ruleUBytes(c *engine.Context) *report.Rule {
-	r := report.NewRule("U-BYTES", "text is transduced in one unit: no byte-wise copy driven by a rune-wise range, no byte offsets summed from utf8.RuneLen of decoded runes", 0)
+func ruleUBytes(c *engine.Context, id string) *report.Rule {
+	doc := "text is transduced in one unit: no byte-wise read driven by a rune-wise range over the same string"
+	if id == "U-RUNELEN" {
+		doc = "no byte offset is accumulated from utf8.RuneLen of runes decoded by ranging over a string (wrong after malformed UTF-8)"
+	}
+	r := report.NewRule(id, doc, 0)
 	p := c.P
 	for _, fn := range parseFuncs(c, true) {
 		for _, l := range cfgutil.Loops(fn) {
@@ -222,7 +227,7 @@ func ruleUBytes(c *engine.Context) *report.Rule {
 				ok2 := true
 				// (a) index used to read single bytes of the same string while the rune value is unused
 				valUsed := val != nil && len(*val.Referrers()) > 0
-				if idx != nil && !valUsed {
+				if idx != nil && !valUsed && id == "U-BYTES" {
 					for _, ref := range *idx.Referrers() {
 						if ix, isIx := ref.(*ssa.Index); isIx && ix.X == rg.X && ix.Index == idx {
 							ok2 = false
@@ -238,7 +243,7 @@ func ruleUBytes(c *engine.Context) *report.Rule {
 					}
 				}
 				// (b) utf8.RuneLen of the decoded rune accumulates a byte offset
-				if val != nil {
+				if val != nil && id == "U-RUNELEN" {
 					for _, ref := range *val.Referrers() {
 						if call, isCall := ref.(*ssa.Call); isCall && call.Call.StaticCallee() != nil && call.Call.StaticCallee().String() == "unicode/utf8.RuneLen" {
 							ok2 = false
